@@ -448,6 +448,19 @@ class CodeSide(object):
         for name in sorted(self.funcs):
             if name.startswith('cnv_'):
                 self.kinds[name] = self.kind_of(name, set())
+        # converters made by a factory: `cnv_x = F("a", "b", ...)` with F returning a closure that tests membership
+        factories = set(n for n, fn in self.funcs.items() if self._is_enum_factory(fn))
+        for node in self.tree.body:
+            if isinstance(node, ast.Assign) and len(node.targets) == 1 and isinstance(node.targets[0], ast.Name) \
+                    and node.targets[0].id.startswith('cnv_') and isinstance(node.value, ast.Call) \
+                    and isinstance(node.value.func, ast.Name):
+                name = node.targets[0].id
+                members = [a.value for a in node.value.args if isinstance(a, ast.Constant) and isinstance(a.value, str)]
+                if node.value.func.id in factories and len(members) == len(node.value.args) \
+                        and all(k.arg in ('doc',) for k in node.value.keywords):
+                    self.kinds[name] = ('enum', members)
+                else:
+                    self.kinds[name] = ('opaque', 'made by an unrecognised call')
 
     # --- helpers whose every return is `arg` / `str(arg)` and which never raise
     def _helper_is_identity(self, fn):
@@ -457,6 +470,39 @@ class CodeSide(object):
             if isinstance(n, ast.Return) and (n.value is None or _u(n.value) not in ('arg', 'str(arg)')):
                 return False
         return True
+
+    def _is_enum_factory(self, fn):
+        """def F(*members, **kw): allowed = frozenset(members); def inner(attribute, arg, element): [value = str(arg)];
+        if value not in allowed: raise ValueError; return value;  [inner.__doc__ = ...]; return inner"""
+        if fn.args.vararg is None or fn.args.args:
+            return False
+        var = fn.args.vararg.arg
+        allowed, inner = None, None
+        b = _body(fn)
+        if not b or not isinstance(b[-1], ast.Return) or not isinstance(b[-1].value, ast.Name):
+            return False
+        for st in b[:-1]:
+            if isinstance(st, ast.Assign) and len(st.targets) == 1 and isinstance(st.targets[0], ast.Name) \
+                    and _u(st.value) in ('frozenset(%s)' % var, 'set(%s)' % var, 'tuple(%s)' % var, var):
+                allowed = st.targets[0].id
+            elif isinstance(st, ast.FunctionDef):
+                inner = st
+            elif isinstance(st, ast.Assign) and len(st.targets) == 1 and isinstance(st.targets[0], ast.Attribute) \
+                    and st.targets[0].attr in ('__doc__', '__name__'):
+                pass
+            else:
+                return False
+        if allowed is None or inner is None or b[-1].value.id != inner.name:
+            return False
+        if [a.arg for a in inner.args.args] != ['attribute', 'arg', 'element']:
+            return False
+        ib = _body(inner)
+        val = 'str(arg)'
+        if ib and _u(ib[0]) == 'value = str(arg)':
+            val, ib = 'value', ib[1:]
+        return (len(ib) == 2 and isinstance(ib[0], ast.If) and not ib[0].orelse and _is_raise_valueerror(ib[0].body)
+                and _u(ib[0].test) in ('%s not in %s' % (val, allowed), 'str(arg) not in %s' % allowed)
+                and _u(ib[1]) in ('return %s' % val, 'return str(arg)'))
 
     def _make_ncname(self):
         fn = self.funcs.get('make_NCName')
@@ -488,6 +534,8 @@ class CodeSide(object):
         fn = self.funcs[name]
         if [a.arg for a in fn.args.args] != ['attribute', 'arg', 'element']:
             return ('opaque', 'signature')
+        if fn.decorator_list:
+            return ('opaque', 'decorated')
         b = _body(fn)
         # 1 identity
         if len(b) == 1 and self._ret_identity(b[0]):
@@ -638,6 +686,12 @@ NAMED_SCHEMA_PATTERNS = ['length', 'nonNegativeLength', 'positiveLength', 'perce
                          'cellAddress', 'clipShape']
 
 
+def converter_names(ac):
+    """id(function object) -> the module-level name `cnv_*` it is bound to (a converter may be a closure or a decorated
+    function whose __name__ says something else)"""
+    return dict((id(v), n) for n, v in sorted(vars(ac).items()) if n.startswith('cnv_') and callable(v))
+
+
 class Translation(object):
     """everything the harness and the Lean side need, computed once per run"""
     def __init__(self, repo):
@@ -650,8 +704,9 @@ class Translation(object):
             sys.path.insert(0, repo)
         ac = importlib.import_module('odf.attrconverters')
         self.bind = {}
+        name_of = converter_names(ac)
         for (attr, el), f in ac.attrconverters.items():
-            self.bind[(tuple(attr), tuple(el) if el is not None else None)] = getattr(f, '__name__', repr(f))
+            self.bind[(tuple(attr), tuple(el) if el is not None else None)] = name_of.get(id(f), getattr(f, '__name__', repr(f)))
         # ids
         names = set()
         for (a, e) in self.bind:
